@@ -166,8 +166,16 @@ def p_index_transpose(rng: Any) -> tuple[str, list[Any]]:
     """P @ P.T with P selecting no element twice."""
     s = _leaf(rng)
     n0 = s.shape[0]
-    form = int(rng.integers(4))
-    if form == 0:
+    form = int(rng.integers(6))
+    if form >= 4 and len(s.shape) >= 2:
+        # the same selections written with an ellipsis
+        nl_ = s.shape[-1]
+        idx = (Ellipsis, slice(0, max(1, nl_ - 1))) if form == 4 else (Ellipsis, int(rng.integers(0, nl_)))
+        kw = {}
+    elif form >= 4:
+        idx = (slice(0, max(1, n0 - 1)),)
+        kw = {}
+    elif form == 0:
         idx: Any = (int(rng.integers(-n0, n0)),)
         kw = {}
     elif form == 1:
@@ -243,7 +251,7 @@ def p_moveaxis(rng: Any) -> tuple[str, list[Any]]:
     return 'moveaxis/M@MT', [m, mt]
 
 
-N_NEARMISS = 10
+N_NEARMISS = 11
 
 
 def p_nearmiss(rng: Any, form: int | None = None) -> tuple[str, list[Any]]:
@@ -335,6 +343,12 @@ def p_nearmiss(rng: Any, form: int | None = None) -> tuple[str, list[Any]]:
         if d is None or rng.integers(2):
             return 'nearmiss/index-reversal', [rev]
         return 'nearmiss/index-reversal@diagonal', [d, rev]
+    if form == 10:
+        # two DIFFERENT ravels that coincide on the first leaf only (leaves of different ranks): ravel_a @ ravel_b.T is not an identity
+        dt10 = _dt(rng)
+        st10 = [S((2, 3), dt10), S((2, 3, 4), dt10)]
+        ra, rb = RavelOperator(0, -1, in_structure=st10), RavelOperator(0, 1, in_structure=st10)
+        return ('nearmiss/ravel@otherravel.T', [rb, ra.T]) if rng.integers(2) else ('nearmiss/ravel@otherravel.T', [ra, rb.T])
     # lazy inverse next to an equal but different operator
     band = jnp.asarray([4.0, 1.0], dtype=s.dtype)
     x1 = SymmetricBandToeplitzOperator(band, s, method='dense')
